@@ -107,6 +107,10 @@ Definition init (scramble : bool) : sst := mkS [] 0 scramble 0 Inv Inv Inv Inv.
 Definition has_data (s : sst) : bool :=
   if scr s && (wo s =? 0) && (c0s s =? Inv) then false else 0 <? zlen (buf s).
 
+(* handshakeMessageComplete: at least one whole handshake message (type, 24-bit length, body) *)
+Definition message_complete (d : list Z) : bool :=
+  (4 <=? zlen d) && (4 + (byte_at d 1 * 65536 + byte_at d 2 * 256 + byte_at d 3) <=? zlen d).
+
 (* initialCryptoStream.Write; returns the state and the error class (0 nil, 2 error) *)
 Definition write (s : sst) (p : list Z) : sst * Z :=
   let b := buf s ++ p in
@@ -115,7 +119,13 @@ Definition write (s : sst) (p : list Z) : sst * Z :=
   else if negb (c0s s =? Inv) then (s1, 0)
   else
     let r := find_sni_ech b in
-    if sCls r =? 1 then (s1, 0)
+    if sCls r =? 1 then
+      (* not parsable (yet); but a whole handshake message that does not parse never will:
+         scrambling is switched off and the message is sent as it is
+         (fixes/C09-scrambler-unparsable-complete-hello.patch) *)
+      if (send s =? 0) && message_complete b
+      then (mkS b (wo s) false (send s) (c0s s) (c0e s) (c1s s) (c1e s), 0)
+      else (s1, 0)
     else if negb (sCls r =? 0) then (s1, 2)
     else if (sPos r =? -1) && (ePos r =? -1) then (mkS b (wo s) false (send s) (c0s s) (c0e s) (c1s s) (c1e s), 0)
     else
